@@ -58,7 +58,7 @@ static int w_apply(void* st,size_t dim,double t,double h,double y[],double yerr[
   // a retryable failure makes the evolve loop halve h: only meaningful while h can still shrink
   if(c.fail_budget>0 && std::fabs(h)>1e-9){ c.fail_budget--; c.failures_fired++; return GSL_FAILURE; }
   // the evolve-level evaluation that produced dydt_in did not pass through the proxy: check it now, y is still intact
-  if(dydt_in) check_rhs(c,t,y,dydt_in,dim,"dydt_in");
+  if(dydt_in && !c.toggled) check_rhs(c,t,y,dydt_in,dim,"dydt_in");   // after a switch was flipped in mid-Evolve a derivative evaluated before the flip is still legitimately in use (retried step)
   int rc=w->real->apply(w->rstate,dim,t,h,y,yerr,dydt_in,dydt_out,&w->proxy);
   if(rc==GSL_SUCCESS && c.reject_budget>0 && yerr && std::fabs(h)>1e-9){ c.reject_budget--; c.rejections_fired++; for(size_t i=0;i<dim;i++) yerr[i]=1e30; }
   return rc;
@@ -109,7 +109,7 @@ static int s_apply(void* st,size_t dim,double t,double h,double y[],double yerr[
   double* k[4]; double* ytmp;
   if(s->bufmode==1){ for(int i=0;i<4;i++) k[i]=(double*)malloc(dim*sizeof(double)); ytmp=(double*)malloc(dim*sizeof(double)); }   // fresh (recycled) addresses every step
   else{ for(int i=0;i<4;i++) k[i]=s->k[i]; ytmp=s->ytmp; if(s->bufmode==3) ytmp=s->alt[s->applies&1]; }
-  if(dydt_in) check_rhs(c,t,y,dydt_in,dim,"dydt_in");
+  if(dydt_in && !c.toggled) check_rhs(c,t,y,dydt_in,dim,"dydt_in");   // after a switch was flipped in mid-Evolve a derivative evaluated before the flip is still legitimately in use (retried step)
   int rc=GSL_SUCCESS;
   for(int i=0;i<T.stages && rc==GSL_SUCCESS;i++){
     if(i==0 && dydt_in){ memcpy(k[0],dydt_in,dim*sizeof(double)); continue; }
